@@ -41,7 +41,8 @@ def check(ctx):
         ctx.check(ok, "T9-tx", sends[0][1], "%s.%s sends the popped head of txes: %s" % (cn, fname, src(arg) if arg is not None else "?"),
                   "the bytes handed to the socket must be the head of the transmit queue")
         req = V.calls(("self.txes.appendleft", "self.txes.append", "self.txes.extend", "self.txes.extendleft", "self.txes.insert"))
-        okq = len(req) == 1 and suffix_match(call_name(req[0][1]), "self.txes.appendleft")
+        okq = len(req) == 1 and (suffix_match(call_name(req[0][1]), "self.txes.appendleft") or
+                                 src(V.sym(req[0][1].func, req[0][0])).endswith("self.txes.appendleft"))
         shape = None
         if okq:
             rn, rc = req[0]
